@@ -158,8 +158,18 @@ def tlc_weak(run, w):
     return "no violation" + (" (%s)" % m.group(1) if m else "")
 
 
+def write_known(run):
+    """the deviations the classification may grant = exactly the C02 findings still listed as `known`"""
+    ids = sorted(k["id"] for k in run.known if k.get("property") == "C02" and k.get("status") == "known")
+    with open(os.path.join(run.specdir, "TopologyKnown.tla"), "w") as f:
+        f.write("--------------------------- MODULE TopologyKnown ---------------------------\n"
+                "KnownCauses == {%s}\n=============================================================================\n"
+                % ", ".join('"%s"' % i for i in ids))
+
+
 def judge(run, files, par=None):
     """trace validation: admission-time guards (hook H1) + anti-affinity on Results, then the order-free end-state forms alone"""
+    write_known(run)
     hooked = bool(run.extra_cov.get("hook_h1_events"))
     twins = {}
     for f in files:         # the second pass reads hard links of the same traces (run.validate writes <trace>.viol.json next to its input)
